@@ -539,8 +539,11 @@ class Part(object):
                 if musical_beat:
                     normal_dur = ts.musical_beats
                 # actual_dur is a sum of floats: a full bar may come out a
-                # rounding error short of normal_dur
-                if actual_dur < normal_dur and not np.isclose(actual_dur, normal_dur):
+                # rounding error short of normal_dur (a pickup is at least one
+                # division short, which is far more than that)
+                if actual_dur < normal_dur and not np.isclose(
+                    actual_dur, normal_dur, rtol=1e-12, atol=0
+                ):
                     y -= actual_dur
             else:
                 # warn
